@@ -182,3 +182,39 @@ Theorem C01_model_regularisation_parameter_irrelevant_any_sound_backend :
     accumulate_raw OpsR expm k Ss Slast Rs alpha lam2 ts.
 Proof. exact: accumulate_lam_irrelevant. Qed.
 Print Assumptions C01_model_regularisation_parameter_irrelevant_any_sound_backend.
+
+(* ---- the tie to phasegen/distributions.py by translation: PhaseTypeDistribution._accumulate (gen/LoopsGen.v is regenerated from
+        the source on every run; proofs/GenLoopsEquiv.v proves it equal to the model's accumulate_raw; analysis/SourceLoops.v
+        transports the analytic facts) ---- *)
+From Coq Require Import QArith Reals.
+From mathcomp Require Import all_ssreflect all_algebra.
+From PG Require Import analysis.Rstruct analysis.RSums analysis.MExp analysis.MExpLaws.
+From PG Require Import base.Ops base.OpsR model.CoalModels model.Matrix model.Loop model.PhaseType proofs.ExpLaws
+                       analysis.Denote analysis.CdfFacts analysis.DenotePhaseType
+                       gen.NpLoops gen.LoopsGen proofs.GenLoopsEquiv analysis.SourceLoops.
+Delimit Scope Q_scope with QQ.
+Delimit Scope nat_scope with N.
+
+Theorem C01_distributions_py_accumulate_is_the_model :
+  forall (expm : seq (seq R) -> seq (seq R)) (regf : seq (seq R) -> R) (k : nat)
+         (Ss : seq (Q * seq (seq R))) (Slast : seq (seq R)) (Rs : seq (seq R)) (alpha : seq R) (ts : seq Q),
+    PhaseTypeDistribution_accumulate OpsR expm regf (length Slast) k (all_epochs Ss Slast) Rs alpha ts
+    = accumulate_raw OpsR expm k Ss Slast Rs alpha (regf (snd (List.hd (None, Slast) (all_epochs Ss Slast)))) ts.
+Proof. exact: gen_accumulate_eq_model_R. Qed.
+Print Assumptions C01_distributions_py_accumulate_is_the_model.
+
+(* pointwise in the end times (any order, repeats); the right-hand side does not mention the regularisation factor *)
+Theorem C01_distributions_py_accumulate_pointwise :
+  forall expm : seq (seq R) -> seq (seq R),
+    (forall n A, wf n n A -> wf n n (expm A) /\ mx_of n n (expm A) = mexp (mx_of n n A)) ->
+  forall (regf : seq (seq R) -> R) (n k : nat) (Ss : seq (Q * seq (seq R))) (Slast : seq (seq R)) (Rs : seq (seq R))
+         (alpha : seq R) (ts : seq Q),
+    regf (List.hd (None, Slast) (all_epochs Ss Slast)).2 <> 0%R ->
+    List.Forall (fun x : Q * seq (seq R) => wf n n x.2) Ss -> wf n n Slast ->
+    (forall i, (i < k)%N -> size (nth [::] Rs i) = n) ->
+    epochs_wf (seq (seq R)) 0%QQ Ss -> List.Forall (fun t => (0 <= t)%QQ) ts ->
+    PhaseTypeDistribution_accumulate OpsR expm regf (length Slast) k (all_epochs Ss Slast) Rs alpha ts =
+    List.map (fun t => mk_val alpha
+       (evalM (vlsz n k) (denCk n k Rs Ss) (vl (mx_of n n Slast) (rwd n Rs) k) t)) ts.
+Proof. exact: source_accumulate_pointwise. Qed.
+Print Assumptions C01_distributions_py_accumulate_pointwise.
